@@ -960,9 +960,16 @@ func (obj *Package) DefLambda(name string, lam *Lambda, fc func(args List) Objec
 			Kind:   kind,
 		}
 		obj.funcs[name] = &fi
-		if vv := obj.vars[name]; vv != nil && Unbound == vv.Val && vv.Export {
+		if vv := obj.vars[name]; vv != nil && vv.Pkg == obj && Unbound == vv.Val && vv.Export {
 			fi.Export = true
 			delete(obj.vars, name)
+			for _, u := range obj.Users {
+				u.mu.Lock()
+				if xv := u.vars[name]; xv == vv {
+					delete(u.vars, name)
+				}
+				u.mu.Unlock()
+			}
 			for _, u := range obj.Users {
 				u.mu.Lock()
 				if xf := u.funcs[name]; xf == nil {
